@@ -36,6 +36,7 @@ type Clause struct {
 }
 
 type LoopContract struct {
+	Steps      []*Clause // per-iteration contracts: checked at the back edge, may use prev(...)
 	Invariants []*Clause
 	Decreases  *SpecExpr
 	Props      []string
@@ -158,7 +159,7 @@ func loadEngine(repoDir string) (*Engine, error) {
 	e := &Engine{repoDir: repoDir, pkgs: pkgs, prog: prog, ssaPkgs: map[string]*ssa.Package{}, byName: map[string]*ssa.Package{},
 		pkgOf: map[*types.Package]*packages.Package{}, fnByKey: map[string]*ssa.Function{}, raw: map[string]*RawContract{},
 		contracts: map[string]*FuncContract{}, constVars: map[string]bool{}, loops: map[*ssa.Function][]*LoopInfo{},
-		recoverFn: map[*ssa.Function]bool{}, forceInline: map[*ssa.Function]bool{}, inlineExternal: map[string]bool{}, unrollLimit: 40}
+		recoverFn: map[*ssa.Function]bool{}, forceInline: map[*ssa.Function]bool{}, inlineExternal: stdlibInline(), unrollLimit: 40}
 	if len(pkgs) > 0 {
 		e.fset = pkgs[0].Fset
 	}
@@ -459,6 +460,18 @@ func (e *Engine) parseContractLines(p *packages.Package, file string, lines []st
 					label = fmt.Sprintf("inv%d", len(lc.Invariants)+1)
 				}
 				lc.Invariants = append(lc.Invariants, &Clause{Kind: "invariant", Case: invCase, Label: label, Props: props, Modes: curModes, Expr: se, Line: t})
+			case "step":
+				props, r := splitProps(fs[2])
+				label, r := splitLabel(r)
+				se, err := parseSpec(r)
+				if err != nil {
+					fail("spec parse error: "+err.Error(), t)
+					continue
+				}
+				if label == "" {
+					label = fmt.Sprintf("step%d", len(lc.Steps)+1)
+				}
+				lc.Steps = append(lc.Steps, &Clause{Kind: "step", Label: label, Props: props, Modes: curModes, Expr: se, Line: t})
 			case "decreases":
 				se, err := parseSpec(fs[2])
 				if err != nil {
@@ -565,7 +578,7 @@ func (e *Engine) contractFor(fn *ssa.Function, mode Mode) *FuncContract {
 	}
 	n.Loops = map[int]*LoopContract{}
 	for i, lc := range fc.Loops {
-		nl := &LoopContract{Decreases: lc.Decreases, Props: lc.Props}
+		nl := &LoopContract{Decreases: lc.Decreases, Props: lc.Props, Steps: lc.Steps}
 		for _, c := range lc.Invariants {
 			if modeMatch(c.Modes, mode.Name) {
 				nl.Invariants = append(nl.Invariants, c)
@@ -753,3 +766,22 @@ func (e *Engine) findPkgByName(from *ssa.Package, name string) *types.Package {
 }
 
 var _ = ast.Inspect
+
+
+// stdlibInline: integer-only standard library functions whose contract is derived by
+// running the same generator on their source (assumption A-STDSRC: the SSA of the installed
+// standard library is the code that runs).
+func stdlibInline() map[string]bool {
+	m := map[string]bool{}
+	for _, f := range []string{
+		"(*image.RGBA64).RGBA64At", "(*image.RGBA64).SetRGBA64", "(*image.NRGBA).NRGBAAt", "(*image.NRGBA).SetNRGBA",
+		"(*image.RGBA).RGBAAt", "(*image.RGBA).SetRGBA",
+		"(image.Point).In", "(image/color.NRGBA).RGBA", "(image/color.RGBA64).RGBA", "(image/color.RGBA).RGBA",
+		"(*image.YCbCr).YCbCrAt",
+		"image/color.YCbCrToRGB", "(image/color.YCbCr).RGBA",
+		"(image.Rectangle).Dx", "(image.Rectangle).Dy", "(image.Rectangle).Empty",
+	} {
+		m[f] = true
+	}
+	return m
+}
